@@ -6,7 +6,7 @@ LEVEL = "model_checking"
 
 def run(ctx):
     consts = {"MaxIn": 1, "MaxOut": 1, "MaxTurns": 2} if ctx.quick else {"MaxIn": 2, "MaxOut": 2, "MaxTurns": 3}
-    cov = p_pipeline.run_family(ctx, "C03", "c03", consts)
+    cov = p_pipeline.run_family(ctx, "C03", "c03", consts, extra_scripts=p_pipeline.directed_c03())
     consts2 = {'MaxIn': 1, 'MaxOut': 1, 'MaxTurns': 2} if ctx.quick else {'MaxIn': 2, 'MaxOut': 2, 'MaxTurns': 3}
     cov2 = p_pipeline.run_family(ctx, "C03", "c03v2", consts2)
     cov = p_pipeline.merge_cov(cov, cov2)
